@@ -10,7 +10,8 @@ RULE = ("exhaustive: every bit string of length 1..12 x M in {2..256} x 5 contai
         "pattern of up to 12 (quick) / 16 (thorough) slots for M in {2,4,8} under 4 numpy seeds (HDD); random long sequences; SDD on "
         "NRZ/RZ/Gaussian waveforms, sps 2..64, with noise and deliberate ties. Postconditions also fire inside ppm.DSP. "
         "Non-trivial: at least one whole symbol; distinct by (M, bits/pattern, form, seed).")
-ASSUMPTIONS = ["'integrated energy' of a slot = sum over the slot of signal+noise (the detected voltage is proportional to optical power)",
+ASSUMPTIONS = ["Gaussian waveforms: identity clause asserted for pulse width T <= sps (wider pulses overlap neighbouring slots by construction)",
+               "'integrated energy' of a slot = sum over the slot of signal+noise (the detected voltage is proportional to optical power)",
                "M = 1 is outside the quantifier (M in {2,4,...,256})"]
 SHARDS = {"quick": 4}
 MIN_CHECKS = {"enc.post": 2000, "dec.post": 2000, "hdd.post": 2000, "sdd.post": 100, "roundtrip": 2000}
@@ -283,7 +284,9 @@ def w_sdd(ctx, rng, i):
             raise core.Skip()
         kw = {}
         if shape == "gaussian":
-            kw = {"T": int(rng.integers((sps + 1) // 2, 2 * sps + 1)), "m": int(rng.integers(1, 4))}
+            # pulses wider than a slot legitimately spill more energy into an OFF slot lying between two ON slots of adjacent
+            # symbols than an ON slot keeps: the "identity on noiseless waveforms" clause is asserted for T <= sps only
+            kw = {"T": int(rng.integers((sps + 1) // 2, (sps if mode in (0, 3) else 2 * sps) + 1)), "m": int(rng.integers(1, 4))}
         x = dv.DAC(code, Vout=float(rng.uniform(0.1, 5)), bias=float(rng.uniform(-1, 1)), pulse_shape=shape, **kw)
         if mode == 0:      # noiseless waveform of a valid codeword -> identity
             r = Pm.SDD(x, M)
